@@ -78,8 +78,10 @@ def is_path_ignored(
     if path.is_file():
         if subset_files is not None and path.resolve() not in subset_files:
             return True
+        # The whole name has to match: '$' alone also matches in front of a
+        # line break at the end of a name.
         for pattern in _IGNORE_FILE_PATTERNS:
-            if pattern.match(name) and (
+            if pattern.fullmatch(name) and (
                 name != "REUSE.toml" or not include_reuse_tomls
             ):
                 return True
@@ -96,13 +98,13 @@ def is_path_ignored(
         ):
             return True
         for pattern in _IGNORE_DIR_PATTERNS:
-            if pattern.match(name):
+            if pattern.fullmatch(name):
                 return True
         if not include_meson_subprojects:
             for pattern in _IGNORE_MESON_PARENT_DIR_PATTERNS:
                 # The root of the project may itself be called 'subprojects';
                 # that does not make its subdirectories Meson subprojects.
-                if pattern.match(parent_dir) and not (
+                if pattern.fullmatch(parent_dir) and not (
                     vcs_strategy
                     and path.parent.resolve() == vcs_strategy.root.resolve()
                 ):
